@@ -765,6 +765,17 @@ def block_validity(ctx):
             t2.vin[0].script_witness = Witness([b"\xee"])
             assert t2.id == txs[i].id
             judge(Block(blk.header, txs[:i] + [t2] + txs[i + 1:], check_validity=False), False, "witness-tamper-accepted", {"ntx": ntx, "i": i})
+        # the coinbase is the only transaction with a witness (alone, or with legacy transactions behind it): the commitment
+        # is still owed, and a coinbase witness without one is Core's "unexpected-witness"
+        leg = [simple_tx(60 + i, [b"\x52"]) for i in range(ntx - 1)]
+        cb_ok0 = coinbase_tx(7, [b"\x51"], bytes(32), bytes(32))
+        goodc = ref_witness_commitment([cb_ok0] + leg)
+        judge(block_from([coinbase_tx(7, [b"\x51"], goodc, bytes(32))] + leg), True, "coinbase-only-witness/valid-refused", {"ntx": ntx})
+        for kind, cbx in (("flip", coinbase_tx(7, [b"\x51"], bytes([goodc[0] ^ 1]) + goodc[1:], bytes(32))),
+                          ("nonce", coinbase_tx(7, [b"\x51"], goodc, b"\x01" + bytes(31))),
+                          ("absent-but-witness", coinbase_tx(7, [b"\x51"], None, bytes(32)))):
+            st.nontrivial += 1
+            judge(block_from([cbx] + leg), False, "coinbase-only-witness/bad-commitment-accepted", {"ntx": ntx, "kind": kind})
         if ntx > 1:
             # commitment flipped / wrong nonce / absent
             body = blk.transactions[1:]
